@@ -170,8 +170,10 @@ type World struct {
 	// CancelBuildOnFault: the constructor that is made to fail first cancels the context its
 	// BuildWithContext runs under (a dial that gives up when the deadline of the build passes)
 	CancelBuildOnFault bool
-	BuildCancel        func()
-	ClosePanicRegs     map[int]bool // the Close method of every instance of these registrations panics
+	// CancelBuildReg: see cancelBuildIfAsked
+	CancelBuildReg *int
+	BuildCancel    func()
+	ClosePanicRegs map[int]bool // the Close method of every instance of these registrations panics
 	// CtxWaitRegs: the constructors of these registrations do not return until the context
 	// they were injected with is done (a dial that can only be aborted through its context);
 	// CtxWaiting receives a token each time one of them starts waiting.
@@ -714,7 +716,20 @@ func (w *World) invoke(r *Reg, ft reflect.Type, args []reflect.Value) []reflect.
 		}
 	}
 	inv.Outcome = 1
+	w.cancelBuildIfAsked(r)
 	return res
+}
+
+// cancelBuildIfAsked: the constructor of World.CancelBuildReg cancels, once it has done its work, the
+// context of the BuildWithContext it runs under (a service that decides the application must not start).
+func (w *World) cancelBuildIfAsked(r *Reg) {
+	w.mu.Lock()
+	c := w.BuildCancel
+	on := w.CancelBuildReg != nil && *w.CancelBuildReg == r.ID
+	w.mu.Unlock()
+	if on && c != nil {
+		c()
+	}
 }
 
 // invokeStatic is the body of the static constructor kinds (plain form, at most
